@@ -179,6 +179,46 @@ func rtScenario(name string) string {
 		if d := lg.deadLetters(); d != 0 {
 			return fmt.Sprintf("CANCELLED: a cancelled Once produced %d dead letter(s)", d)
 		}
+	case "foreign-same-reference", "foreign-same-reference-killed":
+		// w owns a pending one-shot under reference "r"; another actor schedules, under the same reference, a job whose
+		// receiver is w, and that one fires first. References are per owner: w's own job must still be cancellable
+		// (and must die with w).
+		sendWait("once3") // value 7 after 3 units
+		fready := make(chan error, 1)
+		if _, err := sys.ActorOf(vivid.ActorFN(func(c vivid.ActorContext) {
+			if _, ok := c.Message().(*vivid.OnLaunch); ok {
+				fready <- c.Scheduler().Once(ref, rtUnit/2, &rtTick{77}, vivid.WithSchedulerReference("r"))
+			}
+		}), vivid.WithActorName("f")); err != nil {
+			return "spawn f: " + err.Error()
+		}
+		if err := <-fready; err != nil {
+			return "FOREIGN-REFERENCE: another actor could not schedule under a reference this actor also uses: " + err.Error()
+		}
+		wait(1.5)
+		if n := count(); n != 1 {
+			return fmt.Sprintf("FOREIGN-REFERENCE: the other actor's one-shot was delivered %d times after 1.5 units (expected once)", n)
+		}
+		if name == "foreign-same-reference" {
+			if err := sendWait("cancel"); err != nil {
+				return "FOREIGN-REFERENCE: Cancel of the actor's own pending job, after a job of another actor with the same reference was delivered to it, returned " + err.Error()
+			}
+		} else {
+			sys.Kill(ref, false, "rt")
+		}
+		d := lg.deadLetters()
+		wait(6)
+		mu.Lock()
+		seen := append([]int(nil), vals...)
+		mu.Unlock()
+		for _, v := range seen {
+			if v == 7 {
+				return fmt.Sprintf("FOREIGN-REFERENCE: the actor's own one-shot fired although it was cancelled (deliveries %v)", seen)
+			}
+		}
+		if d2 := lg.deadLetters(); d2 != d {
+			return fmt.Sprintf("FOREIGN-REFERENCE: %d dead letter(s) from a job that was cancelled / whose owner was killed", d2-d)
+		}
 	case "owner-killed":
 		sendWait("loop2")
 		wait(1)
@@ -289,7 +329,7 @@ func (e *schedrtEngine) Generate(c *Ctx) {
 		reps = 5
 	}
 	for r := 0; r < reps; r++ {
-		for _, sc := range []string{"once", "loop-cancel", "once-cancel", "owner-killed", "owner-restarted", "cancel-unknown", "cron-invalid", "fired-then-clear", "fired-then-killed", "fired-then-restarted", "through-mailbox"} {
+		for _, sc := range []string{"once", "loop-cancel", "once-cancel", "owner-killed", "owner-restarted", "cancel-unknown", "cron-invalid", "fired-then-clear", "fired-then-killed", "fired-then-restarted", "through-mailbox", "foreign-same-reference", "foreign-same-reference-killed"} {
 			c.Case("rt " + sc)
 			c.R.Nontrivial()
 			c.R.Hit("rt:" + sc)
